@@ -696,14 +696,17 @@ def check_C12(chk, R, S):
 def gen_pair_C13(R):
     """(with, without): same scenario with and without node-scoped requests of a silent node x"""
     base = gen_sim.gen_scenario(R, {"min_nodes": 2, "max_nodes": 4, "fails": [0.0], "p_assert": 0.0, "p_steps": 0.0,
-                                    "p_timer": 1.0, "p_comm": 0.9, "p_mob": 0.6})
+                                    "p_timer": 1.0, "p_comm": 0.9, "p_mob": 0.6, "max_rules": 5, "p_bounded": 1.0,
+                                    "acts": ["settimer", "settimer", "cancel", "cancel", "send", "bcast", "goto", "speed", "range"],
+                                    "trigs": ["init", "timer", "timer", "packet", "telem"]})
     base["maxit"] = None
     if base["dur"] is None:
         base["dur"] = R.choice([2.0, 3.0])
     nn = len(base["nodes"])
     x = nn - 1 if R.random() < 0.6 else R.randrange(nn)
-    scoped = ["settimer", "cancel", "goto", "speed", "range"]
-    rules = []
+    scoped = ["settimer", "cancel", "cancel", "goto", "speed", "range"]
+    rules = [{"trig": ("init",), "nth": None, "acts": [("cancel", k) for k in R.sample([0, 1, 2], R.randint(1, 3))]
+              + [("settimer", R.randrange(3), "abs", R.choice([0.25, 0.5, 1.0]))]}]
     for _ in range(R.randint(1, 4)):
         acts = [gen_sim.gen_action(R, {"acts": scoped}, nn, x) for _ in range(R.randint(1, 4))]
         trig = R.choice([("init",), ("timer", None), ("telem",), ("packet", None)])
@@ -732,7 +735,7 @@ def check_C13(chk, R, S):
                 "speed, range) by a silent existing node or by one additional node; the other nodes' callbacks, times, "
                 "payloads, positions and request outcomes must be identical in both runs, and both must equal the model")
     run_corpus(chk, [])
-    pairs = [gen_pair_C13(R) for _ in range(S["sims"])]
+    pairs = [gen_pair_C13(R) for _ in range(S["sims"] * 3)]
     ra = corr.corr_sims([p[0] for p in pairs])
     rb = corr.corr_sims([p[1] for p in pairs])
     for (w, wo, x, mode), a, b in zip(pairs, ra, rb):
@@ -772,7 +775,7 @@ def check_C13(chk, R, S):
 
 def gen_assert_scenario(R):
     sc = gen_sim.gen_scenario(R, {"p_assert": 1.0, "rec_weights": [0, 1, 0], "acts": ["flag", "flag", "settimer", "send", "bcast"],
-                                  "min_nodes": 1, "max_nodes": 3, "p_timer": 1.0, "p_mob": 0.2, "max_rules": 5})
+                                  "min_nodes": 1, "max_nodes": 5, "p_timer": 1.0, "p_mob": 0.2, "max_rules": 5})
     hs = [h for h in sc["handlers"] if h not in ("A", "R0")]
     sc["handlers"] = hs + ["R0", "A"]
     if R.random() < 0.5:
